@@ -12,7 +12,7 @@ import verif as V
 PROP = "C16"
 SPEC = ["Bng.Spec.C16Teardown", "Bng.Spec.C16Pppoe", "Bng.Spec.C16PppoeWhole", "Bng.Spec.C16SubMgr", "Bng.Spec.C16Paths"]
 COMPS = [
-    V.Component("pppoesrv", monitors=["residue", "conservation", "obs-roundtrip", "held-free", "pool-entry"]),
+    V.Component("pppoesrv", monitors=["residue", "conservation", "obs-roundtrip", "held-free", "pool-entry", "swept-active", "kept-idle"]),
     V.Component("teardown", monitors=["double-stop", "double-cleanup", "residue", "missing-stop", "stop-unstarted", "stop-before-end", "not-terminated", "double-padt", "stop-without-start"]),
     V.Component("submgr", monitors=["double-release", "double-end", "residue", "index-mismatch"]),
 ]
